@@ -123,7 +123,7 @@ func VerifC36_Hist() {
 			tk.tags = append(tk.tags, g)
 		case 3: // AddMilestone on a running task (or one not started yet): at most one per instant, first wins
 			nextID++
-			m := Milestone{ID: nextID, TaskID: tid, Time: now, Kind: MilestoneKindQueue, What: "ms"}
+			m := Milestone{ID: nextID, TaskID: tid, Time: now, Kind: MilestoneKindQueue, What: []string{"ms", "other"}[verifrt.Choice("milestone-what", 2)]}
 			tr.AddMilestone(m)
 			dup := false
 			for _, o := range tk.milestones {
